@@ -56,9 +56,12 @@ claim("C02", "Coq per-pixel refinement proof of the renderer model against a dec
       "Theorems C02_compose / C02_compose_loaded (for every file the loader accepts and every frame, the rendered image has the canvas dimensions and each "
       "pixel equals spec_pixel: a fold over the layer ids in order that blends the (link-resolved) cel pixel of each visible layer with the layer's mode and "
       "mul_un8(layer opacity, cel opacity), raw cels in the three formats and tilemap cels), C02_uncovered, C02_order / C02_order_image (cel chunk order does not "
-      "matter), C02_write_raw / C02_write_tilemap (per-pixel characterisation of the two rasterisers with clipping); for all inputs, no size bound. The check "
+      "matter), C02_write_raw / C02_write_tilemap (per-pixel characterisation of the two rasterisers with clipping); for all inputs, no size bound. End to end "
+      "(Props/C02_e2e.v, C02_e2e_render): a serialised well-formed program that satisfies the load condition sprite_ok_ts and uses the integer modes or soft light "
+      "loads, and every frame renders to a canvas-sized image of byte pixels each equal to the composition formula - bytes to pixels in one statement (C01 + C05 + "
+      "C17 + C02_compose), with a non-vacuity example. The check "
       "re-proves them and compares model and implementation frame images on structured sprites (all modes, opacities, hidden groups, offsets at the i16 extremes) "
-      "plus independent Python oracles (dimensions, uncovered pixels, single-visible-cel frames).",
+      "plus independent Python oracles (dimensions, uncovered pixels, single-visible-cel frames, the whole composition evaluated with the blend function extracted from Spec/AseRef.v, the complete opacity-product square).",
       "Modelled, not verified: Model/Render.v against src/file.rs (tied by the pixel correspondence run); image::RgbaImage as a width/height/pixel map.",
       "DESIGN.md section 5, C02")
 claim("C04", "Coq proof that every Panic site of the loader model is unreachable on byte input + boundary-corruption correspondence run",
